@@ -198,6 +198,12 @@ func (fx *fnExec) applyContract(dst *ssa.Call, ctr *FuncContract, name string, c
 	fx.runBeforeCallHooks(name, args, where)
 	pre := fx.st.clone()
 	env := &SpecEnv{fx: fx, cur: fx.st, old: pre, names: map[string]SV{}, bound: map[string]SV{}, callee: true}
+	if callee != nil {
+		env.pkg = callee.Pkg
+		if env.pkg == nil && callee.Parent() != nil {
+			env.pkg = callee.Parent().Pkg
+		}
+	}
 	pn := paramNames(callee, sig, c.IsInvoke())
 	// closures: bindings come first in callee.Params? No: FreeVars are separate. Params align with args.
 	for i, a := range args {
